@@ -28,6 +28,8 @@ struct Shape {
   int max_iters = 3;
   bool lazy_drain = false;
   int rxcap_small_pct = 0;
+  int fdpass_pct = 0;             // share of clients that negotiate descriptor passing (0: nobody, the default)
+  int fd_msg_pct = 0;             // share of unicast / broadcast messages that carry descriptors
 };
 
 struct G {
@@ -68,7 +70,7 @@ struct G {
       if (i == jump_after) add(mk("uniq", -1, {1, (int64_t)((i - 1) * 10 + (int)r.below(10))}));
       unsigned uid = sh.uids.empty() ? 0 : sh.uids[(size_t)i % sh.uids.size()];
       int64_t rxcap = r.pct((unsigned)sh.rxcap_small_pct) ? r.range(64, 4096) : 0;
-      add(mk("connect", i, {(int64_t)uid, (int64_t)uid, 1000 + i, 0, rxcap}));
+      add(mk("connect", i, {(int64_t)uid, (int64_t)uid, 1000 + i, (sh.fdpass_pct && r.pct((unsigned)sh.fdpass_pct)) ? 1 : 0, rxcap}));
       add(mk("auth", i, {1}));
       add(mk("hello", i, {-1}));
       if (!interleaved) { add(bus_step(3)); add(mk("drain", i)); }
@@ -237,6 +239,10 @@ void msg_ops(G &g, int nops, bool with_names, bool with_replies, bool forged, bo
         static const int codes[] = {10, 10, 10, 7, 6, 8, 3, 2};
         int64_t dup = codes[g.r.below(8)] | (g.r.pct(50) ? 0x100 : 0);
         g.add(g.mk("send", c, {type, flags, g.deliver_mode(), rs, unk, ci, be, 0, 0, 0, 0, 0, -100, dup}, s));
+      } else if (g.sh.fd_msg_pct && g.r.pct((unsigned)g.sh.fd_msg_pct) && (type == 1 || type == 4)) {
+        // with descriptors attached (as many as announced): delivered once, with them, to a recipient that negotiated
+        // descriptor passing; refused with an error otherwise - and never a reason to tell the sender anything twice
+        g.add(g.mk("send", c, {type, flags, g.deliver_mode(), rs, unk, ci, be, 0, 0, (int64_t)g.r.range(1, 2), 0, 0}, s));
       } else
       g.add(g.mk("send", c, {type, flags, g.deliver_mode(), rs, unk, ci, be, shuffle}, s));
     } else if (x < 70 && with_replies) {
@@ -273,6 +279,7 @@ Plan gen_c05(uint64_t seed, bool th) {
     g.sh.rxcap_small_pct = 70;
     g.sh.lazy_drain = true;
   }
+  if (g.r.pct(20)) { g.sh.fdpass_pct = 70; g.sh.fd_msg_pct = 15; }   // some plans pass descriptors, between connections that do and do not negotiate it
   g.connect_all(g.r.pct(30), g.r.pct(40));
   // some clients eavesdrop
   if (g.r.pct(30)) g.add(g.mk("addmatch", g.a_client(), {-1}, {"eavesdrop='true'"}));
